@@ -37,6 +37,11 @@ std::string gen_sparse_fen(Rng& r, int extra_min, int extra_max, bool allow_pawn
 
 bool fen_is_sane(const std::string& fen);
 std::string gen_heavy_fen(Rng& r);
+std::string gen_endgame_class_fen(Rng& r);
+std::string gen_melee_fen(Rng& r);
+PosSpec gen_evasion_family(Rng& r);
+std::string gen_corner_zugzwang_fen(Rng& r);
+std::string gen_wide_fen(Rng& r);
 
 }  // namespace sim
 #endif
